@@ -128,6 +128,11 @@ func Driver() int {
 		verifDir = "/verif"
 	}
 	replayDir := filepath.Join(verifDir, "replays")
+	if old, _ := filepath.Glob(filepath.Join(replayDir, prop+"-*.json")); len(old) > 0 {
+		for _, f := range old {
+			os.Remove(f)
+		}
+	}
 	start := time.Now()
 	fmt.Printf("verif: property=%s tier=%s VERIF_SEED=%d shards=%d budget=%ds engine=%s\n", prop, tier, seed, shards, budget, info.Engine)
 
